@@ -195,7 +195,11 @@ def run_readers(ctx):
     kinds = ["dada_complex", "guppi", "dada_stokes", "dada_multi", "vdif_complex", "dada_real",
              "vdif_real"]
     fs1 = files.gen_file_spec(tape, label="f0", kinds=kinds)
-    if tape.chance(2, 3, "sibling"):
+    if "lsb" in fs1 and not fs1.get("intensity") and tape.chance(1, 4, "samefile"):
+        other = [x for x in ("no", "all", "mask") if x != fs1["lsb"]]
+        fs2 = dict(fs1, lsb=other[tape.draw(len(other), "samefile.lsb")])
+        ctx.probe("two_readers_same_file_different_options")
+    elif tape.chance(2, 3, "sibling"):
         fs2 = dict(fs1, seed=(fs1["seed"] + 1 + tape.draw(5, "sibling.seed")) % 4096)
         ctx.probe("sibling_readers_same_geometry")
     else:
@@ -293,6 +297,19 @@ def _pipeline(ctx, pb, zn, zd, owners, style, case, nblocks, other):
             on = "ok"
         except Exception as e:
             rn, on = e, "raise"
+        if on == "ok" and opname != "container" and tape.chance(1, 6, f"p{s}.scribble"):
+            # the client scribbles over the arrays this call returned, then calls again: the
+            # reference is "the same operation on the NumPy-backed signal" at ANY time, so a
+            # library that hands out (and later re-uses) an internal cache shows up here
+            try:
+                junk = rn.data if isinstance(rn, pb.Signal) else rn
+                if isinstance(junk, np.ndarray) and junk.size and junk.flags.writeable \
+                        and not np.shares_memory(junk, np.asarray(cur_n.data)):
+                    junk[...] = 0
+                    rn = op.call(pb, cur_n, an, desc)
+                    ctx.probe("numpy_result_scribbled_then_recomputed")
+            except Exception as e:
+                rn, on = e, "raise"
         if on == "ok" and isinstance(rn, pb.Signal) and not isinstance(rn.data, np.ndarray):
             raise RuntimeError(f"harness: NumPy twin became {type(rn.data).__name__}-backed after {opname}")
         # ---- Dask, with the laziness monitors armed ----
@@ -505,6 +522,51 @@ def _pipeline(ctx, pb, zn, zd, owners, style, case, nblocks, other):
         if o.tobytes() != b0:
             ctx.violate("graph-buffer-mutated", f"{lastop}:source-buffer",
                         "the source buffer behind the graph changed during compute")
+
+    # fork: the same operation applied twice to the same input with different arguments, both
+    # results computed in ONE graph (task names that ignore an argument collide here)
+    if isinstance(cur_n, pb.Signal) and 0 not in cur_n.shape and tape.chance(1, 3, "fork"):
+        info = ops.Info(cur_n)
+        names = [n for n, o in ops.OPS.items() if o.applies(info) and not o.numpy_only
+                 and n not in ("container", "fftfunc")]
+        fname = names[tape.draw(len(names), "fork.op")]
+        fop = ops.OPS[fname]
+        pairs = []
+        for b in range(2):
+            fdesc = fop.gen(tape, info)
+            try:
+                fan, fad = fop.prepare(pb, cur_n, fdesc), fop.prepare(pb, cur_d, fdesc)
+                frn = fop.call(pb, cur_n, fan, fdesc)
+                with tripwire(trip):
+                    frd = fop.call(pb, cur_d, fad, fdesc)
+            except Exception:
+                break
+            if trip:
+                ctx.violate("not-lazy", f"{fname}:default-scheduler",
+                            "building the result invoked the default scheduler")
+            fdn = frn.data if isinstance(frn, pb.Signal) else frn
+            fdd = frd.data if isinstance(frd, pb.Signal) else frd
+            if not isinstance(fdd, da.Array) or not isinstance(fdn, np.ndarray):
+                break
+            pairs.append((fdesc, fdn, fdd))
+        if len(pairs) == 2:
+            case["fork"] = {"op": fname, "args": [pairs[0][0], pairs[1][0]]}
+            ctx.log("fork", fname, pairs[0][0], pairs[1][0])
+            planf = SchedPlan(tape, "cf", allow_faults=False)
+            simf = SimScheduler(ctx, planf, "cf")
+            try:
+                g1, g2 = dask.compute(pairs[0][2], pairs[1][2], scheduler=simf,
+                                      optimize_graph=bool(tape.draw(2, "cf.opt")))
+            except Exception as e:
+                ctx.violate("dask-numpy-mismatch", f"{fname}:compute-raises",
+                            f"fork of {fname} built, NumPy twins succeeded, compute raised "
+                            f"{type(e).__name__}: {e}")
+            ctx.counts["tasks_executed"] += simf.completed
+            values_equal(ctx, fname, pairs[0][1], g1, nfft + 1, nops + 1,
+                         f"fork branch 0 {pairs[0][0]} computed together with branch 1 {pairs[1][0]}")
+            values_equal(ctx, fname, pairs[1][1], g2, nfft + 1, nops + 1,
+                         f"fork branch 1 {pairs[1][0]} computed together with branch 0 {pairs[0][0]}")
+            ctx.probe("fork_same_op_two_argument_sets_one_graph")
 
     # container methods on the final result change only the container
     if isinstance(cur_d, pb.Signal) and tape.chance(1, 2, "final.container"):
